@@ -268,3 +268,98 @@ def lookup(d, k):
 def impure_len(xs):
     xs.append(0)
     return len(xs)
+
+
+class Cell:
+    def __init__(self, v):
+        self.v = v
+
+
+def two_cells(o1, o2):
+    o1.v = 1
+    o2.v = 2
+    return o1.v
+
+
+def truthy_a(xs, d):
+    r = 0
+    if xs:
+        r += 1
+    if d:
+        r += 10
+    return r
+
+
+def truthy_b(s, n, o):
+    r = 0
+    if s:
+        r += 100
+    if n:
+        r += 1000
+    if o is None:
+        r += 10000
+    return r
+
+
+def countdown(n):
+    k = 0
+    while n > 0:
+        n -= 1
+        k += 1
+    return k
+
+
+def ext(a, b):
+    a.extend(b)
+    return len(a)
+
+
+def popit(a):
+    return a.pop()
+
+
+def concat(a, b):
+    return a + b
+
+
+def dict_sum(d):
+    t = 0
+    for k, v in d.items():
+        t += v
+    return t
+
+
+def dict_copy(d):
+    e = dict(d)
+    e["z"] = 0
+    return e
+
+
+def truediv(a):
+    return a / 2
+
+
+def halves(s):
+    return s.split(".")[0]
+
+
+def has_dot(s):
+    return "." in s
+
+
+def maxlen(a, b):
+    return max(len(a), len(b))
+
+
+def nested_set(rows):
+    rows[0].append(1)
+    return len(rows[1])
+
+
+def early(xs):
+    try:
+        if len(xs) == 0:
+            return -1
+        return xs[0]
+    finally:
+        xs.append(9)
